@@ -253,6 +253,10 @@ func VH_Reassembler() {
 
 	m := &vMon{maxInFlight: maxInFlight, timeoutInf: true}
 	m.base = vU32("base")
+	if vParam("manyopen", 0) > 0 {
+		// (a concrete base for the long scripted run: low, in the middle, and straddling the roll-over)
+		m.base = []uint32{0x10, 0x7FFFFFF0, 0xFFFFFF80}[vChoose("cbase", 3)]
+	}
 	timeout := 1000000 * time.Hour
 	switch vParam("timeout_mode", 0) {
 	case 1:
@@ -302,7 +306,8 @@ func VH_Reassembler() {
 		if pinned == 2 && i == 1 {
 			vAssume(seq == 0)
 		}
-		msg := &auparse.AuditMessage{RecordType: auparse.AuditMessageType(typ), Sequence: seq}
+		// the header's timestamp is any instant: order, grouping and loss accounting go by sequence alone
+		msg := &auparse.AuditMessage{RecordType: auparse.AuditMessageType(typ), Sequence: seq, Timestamp: time.Unix(int64(vU16("ts")), 0)}
 		m.beforeCall()
 		m.notePush(msg, typ, seq)
 		r.PushMessage(msg)
@@ -332,6 +337,25 @@ func VH_Reassembler() {
 				r.PushMessage(msg)
 				m.afterCall(vOpPush)
 			}
+		}
+		k = 0
+	}
+	if n := vParam("manyopen", 0); n > 0 {
+		// many events open at once under a large maxInFlight: n records of n distinct sequences, none of
+		// them completing (every third one arrives out of order)
+		for i := 0; i < n; i++ {
+			off := uint32(i)
+			if i%3 == 1 && i+1 < n {
+				off = uint32(i + 1)
+			} else if i%3 == 2 {
+				off = uint32(i - 1)
+			}
+			seq := m.base + off
+			msg := &auparse.AuditMessage{RecordType: auparse.AUDIT_SYSCALL, Sequence: seq}
+			m.beforeCall()
+			m.notePush(msg, uint16(auparse.AUDIT_SYSCALL), seq)
+			r.PushMessage(msg)
+			m.afterCall(vOpPush)
 		}
 		k = 0
 	}
